@@ -105,6 +105,11 @@ def seq_lt(a, b) -> Bool:
     return seq_lt(a[1:], b[1:])
 
 
+def ident(x):
+    """identity of an object (symbolically: its id; natively the object itself, so that lists of objects compare)"""
+    return x
+
+
 def abs_(x):
     if x < 0:
         return -x
